@@ -46,6 +46,7 @@ type Frame struct {
 	loops  map[*ssa.BasicBlock]bool // loop headers already cut on this path
 	ct     *Contract                // contract being verified when this is the top frame
 	unroll int                      // loop header visits on this path (unrolling guard)
+	visits map[*ssa.BasicBlock]int  // bounded runs: visits of each loop header since its loop was entered
 	skipHeader *ssa.BasicBlock      // header whose loop-cut processing was just done
 	preSt  []*State                 // states at entry of the cut loops (innermost last)
 	preFr  []*Frame
@@ -66,6 +67,12 @@ func (f *Frame) clone() *Frame {
 	}
 	n.defers = f.defers[:len(f.defers):len(f.defers)]
 	n.dregs = f.dregs[:len(f.dregs):len(f.dregs)]
+	if f.visits != nil {
+		n.visits = make(map[*ssa.BasicBlock]int, len(f.visits))
+		for k, v := range f.visits {
+			n.visits[k] = v
+		}
+	}
 	if f.loops != nil {
 		n.loops = map[*ssa.BasicBlock]bool{}
 		for k := range f.loops {
@@ -88,6 +95,17 @@ type Exec struct {
 	mergeIf      bool
 	prune        bool // opt prune: solver-decided branches are not forked
 	pruneQueries int
+	// bounded equivalence runs (equiv.go)
+	noIntMerge bool // if-merging never produces a conditional integer
+	noModular bool // callee contracts are not applied: everything is inlined
+	boundK    int  // loops without invariants: iterations per entry before the path is dropped (0 = off)
+	boundRec  int  // nested activations of one function before the path is dropped (0 = off)
+	boundHits int  // paths dropped by one of the two bounds
+	baseRun   bool // executing a baseline copy: dynamic dispatch prefers the copied methods
+	active    map[*ssa.Function]int
+	eqAbstract func(*ssa.Function) (string, int) // bounded equivalence runs: how a call is treated
+	deadline  time.Time // bounded runs: symbolic execution gives up after this instant
+	steps     int
 	mergeCallMax int
 	maxPaths     int
 	safety       bool
@@ -806,6 +824,12 @@ func (x *Exec) callFn(st *State, fn *ssa.Function, args []Value, depth int) []Ou
 	if outs, ok := x.intrinsic(st, fn, args); ok {
 		return outs
 	}
+	if x.cur != nil && x.cur.lemma && fn.Pkg != nil {
+		if x.cur.called == nil {
+			x.cur.called = map[*ssa.Function]bool{}
+		}
+		x.cur.called[fn] = true
+	}
 	if fn.Blocks == nil {
 		return x.externalCall(st, fn.String(), fn.Signature, args)
 	}
@@ -818,8 +842,15 @@ func (x *Exec) callFn(st *State, fn *ssa.Function, args []Value, depth int) []Ou
 			return x.externalCall(st, fn.String(), fn.Signature, args)
 		}
 	}
-	if cts := x.modularContracts(fn); cts != nil && depth > 0 {
-		return x.applyContract(st, fn, cts, args)
+	if x.eqAbstract != nil && depth > 0 {
+		if name, how := x.eqAbstract(fn); how != absNone {
+			return x.abstractCall(st, name, fn, args, how == absImpure)
+		}
+	}
+	if !x.noModular {
+		if cts := x.modularContracts(fn); cts != nil && depth > 0 {
+			return x.applyContract(st, fn, cts, args)
+		}
 	}
 	fr := &Frame{fn: fn, regs: map[ssa.Value]Value{}, env: map[string]envEntry{}, depth: depth}
 	if len(args) != len(fn.Params) {
@@ -828,6 +859,17 @@ func (x *Exec) callFn(st *State, fn *ssa.Function, args []Value, depth int) []Ou
 	for i, p := range fn.Params {
 		fr.regs[p] = args[i]
 		fr.env[p.Name()] = envEntry{v: args[i]}
+	}
+	if x.boundRec > 0 {
+		if x.active == nil {
+			x.active = map[*ssa.Function]int{}
+		}
+		if x.active[fn] > x.boundRec {
+			x.boundHits++
+			return nil
+		}
+		x.active[fn]++
+		defer func() { x.active[fn]-- }()
 	}
 	return x.run(st, fr, fn.Blocks[0], 0, nil)
 }
@@ -903,6 +945,10 @@ func (x *Exec) ufResult(st *State, name string, t types.Type, args []*Term) Valu
 
 var ufMemo = map[string]*Term{}
 
+// ufHints: name hints whose fresh variables stand for uninterpreted applications (memoised by
+// function and arguments); the others stand for the n-th unknown of their kind on a path.
+var ufHints = map[string]bool{}
+
 // ufApp: Ackermannized application. Same (name,args) -> same variable.
 func (x *Exec) ufApp(st *State, name string, s Sort, args []*Term) *Term {
 	var sb strings.Builder
@@ -913,6 +959,7 @@ func (x *Exec) ufApp(st *State, name string, s Sort, args []*Term) *Term {
 	k := sb.String()
 	r, ok := ufMemo[k]
 	if !ok {
+		ufHints[sanitize(name)] = true
 		r = freshVar(name, s)
 		ufMemo[k] = r
 	}
@@ -1131,13 +1178,21 @@ func (x *Exec) externalCall(st *State, name string, sig *types.Signature, args [
 		if p.cell.typ != nil && len(p.path) == 0 {
 			pt = p.cell.typ
 		}
-		st.store[p.cell] = setPath(old, p.path, x.havocLike(st, sub, pt, "ext$"+sanitize(name)))
+		st.store[p.cell] = setPath(old, p.path, x.havocLike(st, sub, pt, x.occName(st, "ext$"+sanitize(name))))
 		st.wlog = append(st.wlog, p.cell.id)
 	}
 	res := sig.Results()
 	vals := make([]Value, res.Len())
+	rn := name
+	if x.noModular {
+		rn = x.occName(st, sanitize(name))
+	}
 	for i := 0; i < res.Len(); i++ {
-		vals[i] = x.havocResult(st, res.At(i).Type(), name)
+		if x.noModular {
+			vals[i] = x.havocResult(st, res.At(i).Type(), fmt.Sprintf("%s.r%d", rn, i))
+		} else {
+			vals[i] = x.havocResult(st, res.At(i).Type(), name)
+		}
 	}
 	st.log[len(st.log)-1].res = vals
 	return []Out{{st: st, vals: vals}}
@@ -1236,7 +1291,18 @@ func (x *Exec) invoke(st *State, recv Value, m *types.Func, args []Value, depth 
 		if ao, ok := r.val.(*AbsObj); ok {
 			return x.absObjCall(st, ao, m.Name(), args)
 		}
-		fn := x.prog.LookupMethod(r.dyn, m.Pkg(), m.Name())
+		var fn *ssa.Function
+		if x.baseRun {
+			// a baseline copy calls the copied method of a concrete type, when there is one
+			if obj, _, _ := types.LookupFieldOrMethod(r.dyn, true, m.Pkg(), basePrefix+m.Name()); obj != nil {
+				if f, ok := obj.(*types.Func); ok {
+					fn = x.prog.LookupMethod(r.dyn, f.Pkg(), f.Name())
+				}
+			}
+		}
+		if fn == nil {
+			fn = x.prog.LookupMethod(r.dyn, m.Pkg(), m.Name())
+		}
 		if fn == nil {
 			fail("no method %s on %v", m.Name(), r.dyn)
 		}
@@ -1302,6 +1368,12 @@ func (x *Exec) run(st *State, fr *Frame, b *ssa.BasicBlock, idx int, prev *ssa.B
 	for {
 		if st.infeasible() {
 			return nil
+		}
+		if !x.deadline.IsZero() {
+			x.steps++
+			if x.steps&0xf == 0 && time.Now().After(x.deadline) {
+				fail("time budget of the bounded run exhausted")
+			}
 		}
 		if idx == 0 && fr.skipHeader == b {
 			// continuation right after a loop cut: phis are already assigned
@@ -1569,8 +1641,13 @@ func (x *Exec) runInstrs(st *State, fr *Frame, b *ssa.BasicBlock, idx int, prev 
 			fr2 := fr.clone()
 			st1.assume(c)
 			st2.assume(mkNot(c))
-			res := x.run(st1, fr, b.Succs[0], 0, b)
-			res = append(res, x.run(st2, fr2, b.Succs[1], 0, b)...)
+			var res []Out
+			if x.boundedStay(fr, b, 0) {
+				res = x.run(st1, fr, b.Succs[0], 0, b)
+			}
+			if x.boundedStay(fr2, b, 1) {
+				res = append(res, x.run(st2, fr2, b.Succs[1], 0, b)...)
+			}
 			return nil, nil, nil, res, true
 		case *ssa.Jump:
 			return st, b.Succs[0], b, nil, false
@@ -1902,6 +1979,13 @@ func (x *Exec) tryMergeRegion(st *State, fr *Frame, b *ssa.BasicBlock, c *Term) 
 			v, ok := iteValue(cond, get(outs[i]), m)
 			if !ok {
 				return reject()
+			}
+			if x.noIntMerge {
+				// integers steer indices, shifts and loop bounds: a conditional integer is
+				// explored as two paths instead (bounded equivalence runs)
+				if tv, isT := v.(*Term); isT && tv.sort == SInt && tv != m && tv != get(outs[i]) {
+					return reject()
+				}
 			}
 			m = v
 		}
